@@ -9,8 +9,10 @@ import HL.Model.Ast
 namespace HL.Generated.Expect
 open HL.Generated.Facts
 
-/-- `isFullChange` is "all four range fields are zero" (HL.Text.isFullChange; C01). -/
-theorem isFullChange_shape :
-    isFullChangeBody = "{ return r.Start.Line == 0 && r.Start.Character == 0 && r.End.Line == 0 && r.End.Character == 0 }" := by decide
+/-- `isFullChange` used to be tied to the model by comparing its source text with a string, which
+    any harmless rewrite broke; the function is now TRANSLATED on every run (HL/Generated/Pure.lean)
+    and proved equal to `HL.Text.isFullChange` for every range: `isFullChange_eq` in
+    HL/Generated/Expect/PureText.lean.  The fact `isFullChangeBody` is still recorded (evidence). -/
+theorem isFullChange_recorded : isFullChangeBody.length > 0 := by decide
 
 end HL.Generated.Expect
